@@ -258,7 +258,9 @@ class ConcreteFailure:
 class ConcreteWorld:
     symbolic = False
 
-    def __init__(self, values, params=None, slack=0.0):
+    def __init__(self, values, params=None, slack=0.0, rng=None):
+        self.rng = rng            # sampling mode: inputs absent from `values` are drawn uniformly from their range
+        self.drawn = {}
         self.values = values
         self.params = params or {}
         self.np = _np
@@ -267,8 +269,27 @@ class ConcreteWorld:
         self.checked = []
         self.slack = slack
 
-    def _val(self, name, default=0.37):
+    def _val(self, name, default=0.37, lo=None, hi=None):
         if name not in self.values:
+            if self.rng is not None:
+                a = -1.0 if lo is None else float(lo)
+                b = 1.0 if hi is None else float(hi)
+                if lo is None and hi is not None:
+                    a = b - 2.0
+                if hi is None and lo is not None:
+                    b = a + 2.0
+                r = self.rng.random()
+                # some mass on the ends and on small magnitudes
+                if r < 0.05:
+                    v = a
+                elif r < 0.10:
+                    v = b
+                elif r < 0.2:
+                    v = max(a, min(b, self.rng.uniform(-1, 1)))
+                else:
+                    v = self.rng.uniform(a, b)
+                self.drawn[name] = v
+                return v
             # inputs created after the failing obligation are absent from the model: any value will do
             return default
         v = self.values[name]
@@ -279,7 +300,7 @@ class ConcreteWorld:
         return float(v)
 
     def real(self, name, lo=None, hi=None):
-        v = self._val(name)
+        v = self._val(name, lo=lo, hi=hi)
         if lo is not None and v < float(lo) - 1e-12:
             raise HarnessReject('%s below range' % name)
         if hi is not None and v > float(hi) + 1e-12:
@@ -290,7 +311,7 @@ class ConcreteWorld:
         return [self.real('%s%d' % (name, i), lo, hi) for i in range(n)]
 
     def angle(self, name, lo=None, hi=None, taylor=False, strict_lo=False, strict_hi=False):
-        v = self._val(name)
+        v = self._val(name, lo=lo, hi=hi)
         return v
 
     def unit3(self, name):
